@@ -1,18 +1,11 @@
------------------------------- MODULE Gen_Funds ------------------------------
+------------------------------ MODULE Gen_Dust ------------------------------
 (* Generation (DESIGN.md section 5.1): TLC enumerates input histories of the       *)
 (* specification and prints them as JSON; harness/orbsim replays them in the real  *)
 (* code.  Exhaustive: breadth-first with the history in the state (all histories   *)
 (* of length GenDepth over GenAlphabet).  Random: tlc -simulate.                   *)
-EXTENDS MC_Funds, Json
+EXTENDS MC_Dust, Json
 CONSTANT GenDepth, GenSet
 VARIABLES hist, done
-
-\* reduced alphabet for the exhaustive tier; the full one for simulation
-SmallFws == { FwCCTP(0, "MINT_A", "NONE"), FwCCTP(2, "MINT_A", "NONE"), FwHYP("T1", 1, "R_A"), FwHYP("T2", 2, "R_B"),
-              FwINT("U"), FwINT("ORB"), FwINT("DUST") }
-SmallTransfers == { Xfer(0, b, 10000, fw, acts) : b \in {"uusdc", "ustake"}, fw \in SmallFws,
-                    acts \in { <<>>, <<FeeAct(<<Fix(3, "F1"), Bps(5000, "F2")>>)>> } }
-SmallAlphabet == SmallTransfers \cup Others \cup NoOrbiterKey \cup Deposits \cup Admins \cup Envs \cup {ReimportIn}
 
 GenAlphabet == IF GenSet = "small" THEN SmallAlphabet ELSE MCAlphabet
 
@@ -34,3 +27,4 @@ SimSpec == GenInit /\ [][SimNext]_<<st, last, hist, done>>
 
 Emit == done => PrintT(<<"BEHAVIOUR", ToJson(hist)>>)
 =============================================================================
+
